@@ -355,6 +355,10 @@ func c06Seq(c *fw.Ctx, i int) {
 			ts += n
 		case 2, 3: // GeneratePadding
 			n := uint32(r.Pick(0, 1, 2, 3, r.Range(1, 9)))
+			if r.Chance(1, 3000) {
+				n = uint32(r.Pick(32767, 32768, 65535, 65536, 65537, 70000)) // the count is a uint32: a burst across the whole sequence space
+				c.Count("padding_bursts_of_32767_or_more", 1)
+			}
 			trace = append(trace, fmt.Sprintf("GeneratePadding(%d)", n))
 			var pkts []*rtp.Packet
 			if pv, st := fw.Guard(func() { pkts = p.GeneratePadding(n) }); pv != nil {
